@@ -267,14 +267,37 @@ def _ds_setitem(interp, obj, key, val):
     c = obj.fields["content"]
     if isinstance(val, SObj) and val.clsname == "H5Dataset":
         val = val.fields["content"]
+    if isinstance(key, slice) and "strwidth" in obj.fields and isinstance(val, SArr):
+        axiom("H-FIXEDSTR")
+        w = to_z3(obj.fields["strwidth"])
+        kq = z3.Int("k!fx")
+        src = val
+        val = arr_new(interp, src.n,
+                      lambda k: z3.If(models.blen(src.sel(k)) <= w, src.sel(k), trunc(src.sel(k), w)),
+                      "elem")
+        interp.ctx.assume(z3.ForAll([kq], z3.Implies(models.blen(src.sel(kq)) > w,
+                                                     trunc(src.sel(kq), w) != src.sel(kq))))
     if isinstance(key, slice):
         old = SArr(c.n, c.a, c.kind)
         a, b = clamp_slice(c.n, key, interp.ctx)
         models.arr_setitem(interp, c, key, val)
         note_concat(interp, obj, old, a, b, val)
         return None
+    if "strwidth" in obj.fields and isinstance(val, models.SOpaque):
+        # H-FIXEDSTR: a fixed-length string dataset keeps at most `width` bytes
+        axiom("H-FIXEDSTR")
+        w = to_z3(obj.fields["strwidth"])
+        interp.ctx.assume(z3.Implies(models.blen(val.e) > w, trunc(val.e, w) != val.e))
+        val = models.SOpaque(z3.If(models.blen(val.e) <= w, val.e, trunc(val.e, w)))
     models.arr_setitem(interp, c, key, val)
     return None
+
+
+@method("H5Payload", "__getitem__")
+def _payload_getitem(interp, obj, key):
+    if key == slice(None) or key is Ellipsis or key == ():
+        return obj.fields["value"]
+    raise _eng().Unsupported("partial read of a ragged payload")
 
 
 @method("H5Dataset", "__array__")
@@ -305,7 +328,39 @@ def note_concat(interp, dset, old, a, b, val):
 # --------------------------------------------------------------------------
 # groups
 # --------------------------------------------------------------------------
+def str_dtype(ctx, width):
+    """dtype of a fixed-length string dataset"""
+    return ctx.obj("H5Dtype", {"kind": "S", "itemsize": width})
+
+
+def fit_width(ctx, e, w):
+    """value actually stored for bytes e in an S<w> dataset (H-FIXEDSTR)"""
+    ctx.assume(z3.Implies(models.blen(e) > w, trunc(e, w) != e))
+    return z3.If(models.blen(e) <= w, e, trunc(e, w))
+
+
+trunc = z3.Function("trunc", models._Elem, z3.IntSort(), models._Elem)
+
+
+def new_numbered_group(ctx, name="/events/contour", vals=None, size=None):
+    """group whose members are named "0", "1", ... (ragged features): a map
+    Int -> payload with domain dom and cardinality size"""
+    nm = ctx._name("numgrp")
+    g = new_group(ctx, name=name)
+    g.fields["num_dom"] = z3.Array(nm + ".dom", z3.IntSort(), z3.BoolSort())
+    g.fields["num_val"] = vals if vals is not None else z3.Array(nm + ".val", z3.IntSort(), models._Elem)
+    sz = size if size is not None else ctx.int(nm + ".size", lo=0)
+    g.fields["_len"] = sz
+    return g
+
+
 def _grp_lookup(interp, obj, key):
+    num = models.numeric_name(key)
+    if num is not None and "num_dom" in obj.fields:
+        if interp.ctx.decide(wrap(z3.Select(obj.fields["num_dom"], num))):
+            v = models.SOpaque(z3.Select(obj.fields["num_val"], num))
+            return True, interp.ctx.obj("H5Payload", {"value": v})
+        return False, None
     if is_sym(key):
         raise _eng().Unsupported("symbolic member name")
     m, maybe = obj.fields["members"], obj.fields["maybe"]
@@ -336,6 +391,12 @@ def _grp_getitem(interp, obj, key):
     if not found:
         raise _eng().PyRaise(KeyError, (key,))
     return val
+
+
+@method("H5Group", "get")
+def _grp_get(interp, obj, key, default=None):
+    found, val = _grp_lookup(interp, obj, key)
+    return val if found else default
 
 
 @method("H5Group", "__delitem__")
@@ -399,6 +460,19 @@ def _grp_create_dataset(interp, obj, name, shape=None, dtype=None, data=None,
     eng = _eng()
     ctx = interp.ctx
     axiom("H-CREATE")
+    num = models.numeric_name(name)
+    if num is not None:
+        if "num_dom" not in obj.fields:
+            raise eng.Unsupported("numbered member in a group that is not modelled as numbered")
+        if ctx.decide(wrap(z3.Select(obj.fields["num_dom"], num))):
+            raise eng.PyRaise(ValueError, ("Unable to create dataset (name already exists)",))
+        if not isinstance(data, models.SOpaque):
+            raise eng.Unsupported("numbered member without an opaque payload")
+        interp.heap_write(obj)
+        obj.fields["num_dom"] = z3.Store(obj.fields["num_dom"], num, z3.BoolVal(True))
+        obj.fields["num_val"] = z3.Store(obj.fields["num_val"], num, data.e)
+        obj.fields["_len"] = wrap(to_z3(obj.fields["_len"]) + 1)
+        return ctx.obj("H5Payload", {"value": data})
     found, _ = _grp_lookup(interp, obj, name)
     if found:
         raise eng.PyRaise(ValueError, ("Unable to create dataset (name already exists)",))
@@ -424,11 +498,15 @@ def _grp_create_dataset(interp, obj, name, shape=None, dtype=None, data=None,
             shape = (shape,)
         n = to_z3(shape[0])
         item_shape = tuple(shape[1:])
-        kind = kw.pop("_kind", None) or _kind_of_dtype(dtype)
+        kind = kw.pop("_kind", None) or ("elem" if item_shape else _kind_of_dtype(dtype))
         content = ctx.arr("created", kind, n=n)
     content.birth = ctx.stamp
     ds = new_dataset(ctx, content, name=f"{obj.fields['name']}/{name}", chunks=chunks,
                      dtype=dtype, item_shape=item_shape)
+    if isinstance(dtype, models.SFmt) and len(dtype.parts) == 2 and dtype.parts[0] == "S":
+        ds.fields["strwidth"] = dtype.parts[1]       # fixed-length string storage
+        ds.fields["dtype"] = str_dtype(ctx, dtype.parts[1])
+        content.elem_pytype = bytes
     ds.fields["create_kw"] = dict(kw, maxshape=maxshape)
     obj.fields["maybe"].pop(name, None)
     obj.fields["members"][name] = ds
